@@ -874,7 +874,20 @@ def __infer_const_set(
     scope_tree: irast.ScopeTreeNode,
     ctx: inference_context.InfCtx,
 ) -> qltypes.Cardinality:
-    return ONE if len(ir.elements) == 1 else AT_LEAST_ONE
+    # `try_constant_set` folds query parameters into the ConstantSet as
+    # well.  An optional parameter may be passed as an empty set, so it
+    # does not contribute to the lower bound: the set is known to be
+    # non-empty only if it has a constant or a required parameter.
+    required = any(
+        not isinstance(el, irast.Parameter) or el.required
+        for el in ir.elements
+    )
+    if len(ir.elements) == 1:
+        return ONE if required else AT_MOST_ONE
+    elif required:
+        return AT_LEAST_ONE
+    else:
+        return MANY
 
 
 @_infer_cardinality.register
